@@ -212,6 +212,50 @@ CHECKS = {
              "modelled; 'own output passes' is oracle-only (needs C05/C03); escape analysis is path-insensitive.",
         technique="fail-closed ast translation + finite vm_compute checks lifted by lemmas + correspondence + oracle",
         design_ref="DESIGN.md 6.C20, 10.4"),
+
+    "C06": dict(
+        category="proof",
+        text="Closed Coq theorems over executable models of xsd_repr / from_xsd / the value constructors for all 31 XSD types: "
+             "print->parse identity and validity of the printed text against recognisers transcribed from XML Schema 1.1 Part 2 "
+             "(integers, boolean, all 1681 zone offsets by exhaustive vm_compute with the bound stated, date/time/dateTime incl. all "
+             "10^6 microsecond values deductively, the five g-types, strings, hex and base64 on bit level for arbitrary byte strings, "
+             "durations of both signs, decimals of any exponent, floats under visible premises about repr/float), rejection of every "
+             "invalid literal with ValueError, rejection of out-of-space values (integer bounds as literals, month/day, zone offsets, "
+             "mixed-sign durations, forbidden white space), one-to-one name table with the specification names as literals; tables "
+             "and range checks re-translated from datatypes.py on every run; the pre-repair microsecond expression is modelled "
+             "bit-exactly with PrimFloat (11549 of 10^6 values lose 1 us). Tied by differential execution on values and literals.",
+        note="Trusted: Coq kernel + vm_compute; tools/py2coq/xsdtables.py (self-validated against the interpreter); hand-written models "
+             "incl. stdlib pieces (isoformat, int(), Decimal.__format__, relativedelta._fix, base64/hex) tied only by correspondence; "
+             "XsdLex.v transcribes the spec (cross-checked with a Python re transcription); binary floating point only as premises of "
+             "C06_float_roundtrip; C06_old_us_expression depends on the Coq primitives PrimFloat/PrimInt63 (no axioms). Open finding: "
+             "Float is not a 32-bit type.",
+        technique="Coq proof (structural + exhaustive vm_compute over finite domains with stated bounds) + translation + correspondence",
+        design_ref="DESIGN.md 6.C06, 10.7"),
+    "C10": dict(
+        category="proof",
+        text="Closed Coq theorems over an executable model of WSGIApp's handlers: create/read/replace/delete/duplicate/unknown refine a "
+             "map from identifier to object on the submodel routes; the invariant 'filed under its own id' holds after every history "
+             "without id-changing PUT bodies (refuted otherwise: open known finding); paging follows the cursor exactly once for every "
+             "limit > 0; every mutating handler commits (finite check over the call table translated from http.py). Route table, "
+             "except clauses, statuses and commit() calls are regenerated from http.py on every run; the hand-written handler model is "
+             "tied by differential execution of random request histories over in-memory and local-file stores; oracle = a Python "
+             "dict as reference repository plus probes (GET at Location, GET after DELETE/PUT, listings, paging).",
+        note="Proof on the handler model, partial: werkzeug routing/converters/Accept negotiation/multipart and JSON/XML parsing are not "
+             "modelled (bodies enter as abstract values); request-level theorems are stated on the submodel routes, the others are "
+             "covered by the invariant and the correspondence. Trusted: kernel + vm_compute, tools/py2coq/httproutes.py (self-checked "
+             "against url_map), harness/oracle, Files.v. Seven open known findings (id-changing PUT, list-index paths, core level for XML, ...).",
+        technique="Coq proof (case analysis over generated endpoints, induction over histories) + translation tie + correspondence + reference-dict oracle",
+        design_ref="DESIGN.md 6.C10, 10.7"),
+    "C11": dict(
+        category="proof",
+        text="Closed Coq theorems: under the own-id invariant no request yields 5xx except 501 on declared-unimplemented routes "
+             "(refuted without the invariant: DELETE after an id-changing PUT, open known finding); every 4xx except 406 carries the "
+             "result structure with success=false; every 4xx/501 leaves store and file container unchanged (both unconditional). Proved "
+             "by walking every generated endpoint with the except tables translated from http.py on every run; tied by a 26k-request "
+             "route x method x malformed-input matrix and random histories through werkzeug's test client, with a snapshot oracle.",
+        note="As C10, plus: the exception class raised by each SDK operation is hand-modelled and tied only by the malformed-input matrix.",
+        technique="Coq proof (exception-flow case analysis over generated endpoints) + translation tie + correspondence + snapshot oracle",
+        design_ref="DESIGN.md 6.C10/C11, 10.7"),
 }
 
 NOT_YET = "check under construction in this round (see DESIGN.md section 9); not claimed until it is green on the unchanged tree"
